@@ -1,4 +1,385 @@
-/- C08 property theorems (under construction) -/
+/-
+C08 — Criteria mean the same with or without indexes and pruning.
+Property theorems only; helper lemmas live in Banyan/Lemmas/C08*.lean.
+
+The theorems are about the executable models in Banyan/Model/C08.lean, which mirror the *repaired* functions
+(fixes F9, F21–F25, F27, F29, F61–F63 in /verif/fixes); each `_legacy` definition mirrors the code at the pinned
+commit and comes with a `decide`d counterexample.
+-/
 import Banyan.Model.C08
+import Banyan.Lemmas.C08Bloom
+import Banyan.Lemmas.C08Dict
+import Banyan.Lemmas.C08Order
+import Banyan.Lemmas.C08MinMax
+import Banyan.Lemmas.C08Skip
+import Banyan.Lemmas.C08Index
+import Banyan.Lemmas.C08Scan
+
 namespace Banyan.C08
+open Banyan
+
+/-! ## 1. bloom filter: no false negatives, for ANY hash function -/
+
+/-- `MightContain(x)` is true for every `x` that was `Add`ed, whatever the hash function `H`, the initial bit
+    array (any positive size, any prior content) and the other items added before or after. -/
+theorem bloom_no_false_negative (H : Bytes → Nat) (bf : Bloom) (hm : 0 < bf.bits.length)
+    (xs : List Bytes) (x : Bytes) (hx : x ∈ xs) : (bf.addAll H xs).mightContain H x = true := by
+  induction xs generalizing bf with
+  | nil => cases hx
+  | cons y ys ih =>
+    simp only [Bloom.addAll, List.foldl_cons]
+    rcases List.mem_cons.mp hx with rfl | hmem
+    · exact Bloom.mightContain_addAll_mono H _ x ys (Bloom.mightContain_add_self H bf hm x)
+    · exact ih (bf.add H y) (by rw [Bloom.add_length]; exact hm) hmem
+
+/-- the filter the writers allocate (`NewBloomFilter(n)` / `ResizeBits(OptimalBitsSize(n))`) is never empty,
+    in particular at the `n >> 2 = 0` edge (`n < 4`). -/
+theorem bloom_new_nonempty (n : Nat) : 0 < (Bloom.new n).bits.length := Bloom.new_length_pos n
+
+theorem bloom_new_no_false_negative (H : Bytes → Nat) (n : Nat) (xs : List Bytes) (x : Bytes) (hx : x ∈ xs) :
+    ((Bloom.new n).addAll H xs).mightContain H x = true :=
+  bloom_no_false_negative H _ (bloom_new_nonempty n) xs x hx
+
+/-- monotone: further `Add`s never turn "might contain" into "does not contain". -/
+theorem bloom_monotone (H : Bytes → Nat) (bf : Bloom) (x : Bytes) (ys : List Bytes)
+    (h : bf.mightContain H x = true) : (bf.addAll H ys).mightContain H x = true :=
+  Bloom.mightContain_addAll_mono H bf x ys h
+
+/-- `ContainsAll(items)` is true when every item was added. -/
+theorem bloom_containsAll_sound (H : Bytes → Nat) (n : Nat) (xs items : List Bytes) (h : ∀ i ∈ items, i ∈ xs) :
+    ((Bloom.new n).addAll H xs).containsAll H items = true := by
+  simp only [Bloom.containsAll, List.all_eq_true]
+  intro i hi
+  exact bloom_new_no_false_negative H n xs i (h i hi)
+
+example : ((Bloom.new 0).addAll xxh64 [[97], [98]]).mightContain xxh64 [97] = true :=
+  bloom_new_no_false_negative xxh64 0 [[97], [98]] [97] (by simp)
+
+/-! ## 2. dictionary filter -/
+
+/-- **exact specification of the repaired `ContainsAll` on string-array dictionaries**: for ANY element bytes
+    (including `|` and `\`), the answer is "the query items are a subset of one stored array". -/
+theorem dictionary_filter_sound (arrs : List (List Bytes)) (items : List Bytes) :
+    (Dict.mk .strArr (arrs.map marshalStrArr)).containsAll items =
+      (items.isEmpty || arrs.any fun a => items.all fun x => a.contains x) := by
+  unfold Dict.containsAll
+  cases hi : items.isEmpty
+  · simp only [Bool.false_eq_true, if_false, Bool.false_or, List.any_map]
+    congr 1
+    funext a
+    exact extractStrArr_marshal a items
+  · simp
+
+/-- the same for int-array dictionaries (8-byte ordered encodings) -/
+theorem dictionary_filter_sound_intArr (arrs : List (List I64)) (items : List I64) :
+    (Dict.mk .intArr (arrs.map fun a => (a.map encI64).flatten)).containsAll (items.map encI64) =
+      (items.isEmpty || arrs.any fun a => items.all fun x => a.contains x) := by
+  unfold Dict.containsAll
+  cases items with
+  | nil => simp
+  | cons i is =>
+    simp only [List.map_cons, List.isEmpty_cons, Bool.false_eq_true, if_false, Bool.false_or, List.any_map]
+    congr 1
+    funext a
+    exact extractIntArr_enc a (i :: is)
+
+/-- scalar dictionaries: all items are dictionary values -/
+theorem dictionary_filter_sound_scalar (vals items : List Bytes) :
+    (Dict.mk .str vals).containsAll items = items.all fun x => vals.contains x := by
+  unfold Dict.containsAll
+  cases items with
+  | nil => simp
+  | cons i is => simp
+
+/-- **no false negative**: a block whose dictionary holds the (serialized) array of some row admits every
+    sub-list of that row's elements — so a `skip` based on it never discards that row. -/
+theorem dictionary_no_false_negative (arrs : List (List Bytes)) (a : List Bytes) (ha : a ∈ arrs)
+    (items : List Bytes) (hsub : ∀ x ∈ items, x ∈ a) :
+    (Dict.mk .strArr (arrs.map marshalStrArr)).containsAll items = true := by
+  rw [dictionary_filter_sound]
+  cases hi : items.isEmpty
+  · simp only [Bool.false_or, List.any_eq_true]
+    exact ⟨a, ha, by simp only [List.all_eq_true]; intro x hx; simpa using hsub x hx⟩
+  · rfl
+
+/-- the repaired filter is a pure function: asking twice gives the same answer (trivially) and the stored
+    values are not part of the result. Finding F9: at the pinned commit the lookup decodes the stored value in
+    place — `a\|b|c|` becomes `a|bb|c|` — so the second identical query answers `false`. -/
+theorem dictionary_legacy_counterexample :
+    let stored := [marshalStrArr [[97, 124, 98], [99]]]          -- one array: ["a|b", "c"]
+    let q := [[97, 124, 98]]                                     -- ContainsAll(["a|b"])
+    let (r1, stored1) := containsAllStrArrLegacy stored q
+    let (r2, _) := containsAllStrArrLegacy stored1 q
+    r1 = true ∧ r2 = false ∧ stored1 ≠ stored ∧
+      (Dict.mk .strArr stored).containsAll q = true := by
+  decide
+
+/-! ## 3. min/max -/
+
+/-- the writer's running min/max (repaired F27: nulls ignored) bracket every stored value -/
+theorem minmax_written_sound (vs : List (Option I64)) (i : I64) (hi : some i ∈ vs) :
+    let stored := vs.map (Option.map encI64)
+    lexLt (blockMax stored) (encI64 i) = false ∧ lexLt (encI64 i) (blockMin stored) = false := by
+  have hne : ∀ v, some v ∈ vs.map (Option.map encI64) → v ≠ [] := by
+    intro v hv
+    obtain ⟨o, _, ho⟩ := List.mem_map.mp hv
+    cases o with
+    | none => cases ho
+    | some j =>
+      simp only [Option.map_some, Option.some.injEq] at ho
+      subst ho
+      intro h
+      have := encI64_length j
+      rw [h] at this
+      cases this
+  have hmem : some (encI64 i) ∈ vs.map (Option.map encI64) := List.mem_map.mpr ⟨some i, hi, rfl⟩
+  exact ⟨blockMax_ge _ hne _ hmem, blockMin_le _ hne _ hmem⟩
+
+/-- **min/max pruning is sound**: if the block's bounds bracket `i` and `Range` says "skip" for a range
+    condition `op lit`, then the scan predicate is false for `i`. -/
+theorem minmax_sound (mt : Val → Val → Bool) (mn mx : Bytes) (op : Op) (l i : I64) (r : IntRange)
+    (hr : intRangeOf op l = some r)
+    (hmx : lexLt mx (encI64 i) = false) (hmn : lexLt (encI64 i) mn = false)
+    (h : rangeSkip mn mx r = true) : leafEval cmpI64 mt op (.int l) (.int i) = false := by
+  rw [leafEval_int_range mt op l i r hr]
+  exact rangeSkip_sound mn mx r i hmx hmn h
+
+example : rangeSkip (encI64 5#64) (encI64 7#64) ⟨7#64, maxI64, false, true⟩ = true := by decide
+
+/-- F27: at the pinned commit a null between two values resets the running minimum: `[5, null, 7]` ends with
+    min = enc 7, above the stored 5. -/
+theorem minmax_legacy_counterexample :
+    blockMin_legacy [some (encI64 5#64), none, some (encI64 7#64)] = encI64 7#64 ∧
+    blockMin [some (encI64 5#64), none, some (encI64 7#64)] = encI64 5#64 := by
+  decide
+
+/-- F21: `int64Literal.Compare` by subtraction wraps: `9e18 > -9e18` is evaluated as false. -/
+theorem compare_legacy_counterexample :
+    let a : I64 := BitVec.ofInt 64 (-9000000000000000000)
+    let b : I64 := BitVec.ofInt 64 9000000000000000000
+    leafEval cmpI64_legacy (fun _ _ => false) .gt (.int a) (.int b) = false ∧
+    leafEval cmpI64 (fun _ _ => false) .gt (.int a) (.int b) = true := by
+  decide
+
+/-- F29: at the pinned commit the implicit bound of a one-sided range is exclusive, so `tag > 6` prunes a block
+    whose only value is `MaxInt64`. -/
+theorem range_legacy_counterexample :
+    (intRangeOf_legacy .gt 6#64).map (rangeSkip (encI64 maxI64) (encI64 maxI64)) = some true ∧
+    (intRangeOf .gt 6#64).map (rangeSkip (encI64 maxI64) (encI64 maxI64)) = some false ∧
+    leafEval cmpI64 (fun _ _ => false) .gt (.int 6#64) (.int maxI64) = true := by
+  decide
+
+/-! ## 4. pruning is sound: a skipped block holds no matching row -/
+
+/-- **`pruning_sound` (stream)**: `skip summary pred = true → ∀ row ∈ block, ¬ pred row`, for every criteria tree,
+    index configuration and hash function, given that the block's summaries were built from its rows. -/
+theorem pruning_sound_stream (H : Bytes → Nat) (mt : Val → Val → Bool) (schema : List TagType) (cfg : List Cfg)
+    (rows : List Row) (s : BlockSummary) (hs : BlockSound H .stream schema rows s) (ht : RowsTyped schema rows)
+    (c : Criteria) (f : SFilter) (hc : compileStream schema cfg c = .ok f)
+    (hk : shouldSkip H .stream s f = some true) : ∀ r ∈ rows, holds mt c r = false := by
+  intro r hr
+  have := compileStream_sound H schema cfg rows s hs ht mt c f hc hk r hr
+  simp only [holds]
+  cases h : eval mt c r with
+  | none => rfl
+  | some b => cases b <;> simp_all
+
+/-- **`pruning_sound` (trace / sidx)** -/
+theorem pruning_sound_trace (H : Bytes → Nat) (mt : Val → Val → Bool) (schema : List TagType)
+    (rows : List Row) (s : BlockSummary) (hs : BlockSound H .trace schema rows s) (ht : RowsTyped schema rows)
+    (c : Criteria) (f : SFilter) (hc : compileTrace schema c = .ok f)
+    (hk : shouldSkip H .trace s f = some true) : ∀ r ∈ rows, holds mt c r = false := by
+  intro r hr
+  have := compileTrace_sound H schema rows s hs ht mt c f hc hk r hr
+  simp only [holds]
+  cases h : eval mt c r with
+  | none => rfl
+  | some b => cases b <;> simp_all
+
+/-- non-vacuity: a block `{s = "a"}` whose dictionary holds "a" is pruned by `s = "b"` (and `BlockSound` holds). -/
+example :
+    let rows : List Row := [[some (.str [97])]]
+    let s : BlockSummary := [(0, ⟨.dict ⟨.str, [[97]]⟩, [], [], .str⟩)]
+    compileStream [.str] [.skipping] (.leaf .eq 0 (.str [98])) = .ok (.eq 0 [[98]]) ∧
+      shouldSkip xxh64 .stream s (.eq 0 [[98]]) = some true ∧
+      rows.map (holds (fun _ _ => false) (.leaf .eq 0 (.str [98]))) = [false] := by
+  exact ⟨rfl, by decide, by decide⟩
+
+/-- F22: the legacy skipping EQ probes the decimal text of an int literal; a dictionary of stored (8-byte) values
+    never contains it, so a block holding the value 5 is pruned by `tag = 5`. -/
+theorem eq_probe_legacy_counterexample :
+    let d : FilterS := .dict ⟨.int, [encI64 5#64]⟩
+    d.containsAll xxh64 [decimalBytes 5#64] = false ∧ d.containsAll xxh64 (litBytes (.int 5#64)) = true := by
+  decide
+
+/-- F24: `Eq` through `MightContain` never finds an element of an array dictionary. -/
+theorem eq_array_legacy_counterexample :
+    let s : BlockSummary := [(0, ⟨.dict ⟨.strArr, [marshalStrArr [[97], [98]]]⟩, [], [], .strArr⟩)]
+    opEq_legacy xxh64 .stream s 0 [97] = false ∧ opEq xxh64 .stream s 0 [97] = true := by
+  decide
+
+/-! ## 5. inverted index -/
+
+/-- **`index_superset`**: every document that satisfies the criteria is in the posting list the compiled inverted
+    filter returns from the abstract index (for every tree, also with non-indexed leaves). -/
+theorem index_superset (mt : Val → Val → Bool) (schema : List TagType) (cfg : List Cfg) (docs : List Doc)
+    (hn : (docs.map (·.1)).Nodup) (c : Criteria) (f : IFilter) (hc : compileInv schema cfg c = .ok f)
+    (d : Doc) (hd : d ∈ docs) (hty : RowTyped schema d.2) (hok : CritOk schema cfg d c)
+    (hh : holds mt c d.2 = true) : (exec cfg docs f).contains d.1 = true := by
+  rw [exec_contains cfg docs hn (compileInv_shape hc) d hd]
+  apply isem_of_holds mt schema cfg d hty c f hok hc
+  simpa [holds] using hh
+
+/-- **`index_eq_scan` (mixed trees)**: the stream pipeline — index lookup, then the scan filter on the candidates —
+    selects exactly the brute-force answer `rows.filter (eval c)`. -/
+theorem index_eq_scan (mt : Val → Val → Bool) (schema : List TagType) (cfg : List Cfg) (docs : List Doc)
+    (hn : (docs.map (·.1)).Nodup) (c : Criteria) (f : IFilter) (hc : compileInv schema cfg c = .ok f)
+    (hty : ∀ d ∈ docs, RowTyped schema d.2) (hok : ∀ d ∈ docs, CritOk schema cfg d c) :
+    docs.filter (fun d => (exec cfg docs f).contains d.1 && holds mt c d.2) = docs.filter (fun d => holds mt c d.2) := by
+  apply List.filter_congr
+  intro d hd
+  cases hh : holds mt c d.2
+  · simp
+  · simp [index_superset mt schema cfg docs hn c f hc d hd (hty d hd) (hok d hd) hh]
+
+/-- the index alone is exact for a filter tree: `Execute` returns precisely the documents with the tree's meaning
+    (used for the NOT nodes; full exactness w.r.t. `eval` needs the literal/tag typing listed in the design note). -/
+theorem index_exec_exact (cfg : List Cfg) (docs : List Doc) (hn : (docs.map (·.1)).Nodup)
+    (schema : List TagType) (c : Criteria) (f : IFilter) (hc : compileInv schema cfg c = .ok f)
+    (d : Doc) (hd : d ∈ docs) : (exec cfg docs f).contains d.1 = isem cfg f d :=
+  exec_contains cfg docs hn (compileInv_shape hc) d hd
+
+/-- full statement of index = scan for fully indexed trees (index alone, without the scan filter). It does NOT hold
+    without further typing hypotheses (e.g. `s = "a"` on an array tag, HAVING on a scalar tag); kept visible. -/
+def index_eq_scanStatement : Prop :=
+  ∀ (mt : Val → Val → Bool) (schema : List TagType) (cfg : List Cfg) (docs : List Doc) (c : Criteria) (f : IFilter),
+    (docs.map (·.1)).Nodup → compileInv schema cfg c = .ok f → (∀ d ∈ docs, RowTyped schema d.2) →
+    (∀ d ∈ docs, CritOk schema cfg d c) → f.isEnode = false →
+    ∀ d ∈ docs, (exec cfg docs f).contains d.1 = holds mt c d.2
+
+/-- non-vacuity of `index_superset`'s hypotheses, and F26 (a document without any indexed field is invisible). -/
+example :
+    let cfg := [Cfg.inverted]
+    let docs : List Doc := [(1, [some (.str [97])]), (2, [some .null])]
+    compileInv [.str] cfg (.leaf .ne 0 (.str [98])) = .ok (.not 0 (.eq 0 (some (.bytes [98])))) ∧
+      exec cfg docs (.not 0 (.eq 0 (some (.bytes [98])))) = .ids [1] ∧
+      holds (fun _ _ => false) (.leaf .ne 0 (.str [98])) [some .null] = true := by
+  exact ⟨rfl, by decide, by decide⟩
+
+/-! ## 6. the property: the selected rows do not depend on the index configuration -/
+
+theorem flatMap_filter_keep {α β : Type} (bs : List α) (keep : α → Bool) (g g' : α → List β)
+    (h : ∀ b ∈ bs, (if keep b then g b else []) = g' b) : (bs.filter keep).flatMap g = bs.flatMap g' := by
+  induction bs with
+  | nil => rfl
+  | cons b bs ih =>
+    have hb := h b (by simp)
+    have ih' := ih (fun b' hb' => h b' (by simp [hb']))
+    by_cases hk : keep b = true
+    · simp only [hk, if_true] at hb
+      simp [List.filter_cons, hk, hb, ih']
+    · simp only [hk, Bool.false_eq_true, if_false] at hb
+      simp [List.filter_cons, hk, ← hb, ih']
+
+/-- one block of a part: its summaries and its documents -/
+abbrev Block := BlockSummary × List Doc
+
+/-- The stream query pipeline on one part under configuration `cfg`: block pruning by the compiled skipping filter,
+    index lookup by the compiled inverted filter, scan filter on what is left. `none` = the query is rejected. -/
+def select (H : Bytes → Nat) (mt : Val → Val → Bool) (schema : List TagType) (cfg : List Cfg)
+    (blocks : List Block) (c : Criteria) : Option (List Doc) :=
+  let docs := blocks.flatMap (·.2)
+  match compileStream schema cfg c, compileInv schema cfg c with
+  | .ok sf, .ok f =>
+    some ((blocks.filter fun b => !(shouldSkip H .stream b.1 sf == some true)).flatMap fun b =>
+      b.2.filter fun d => (exec cfg docs f).contains d.1 && holds mt c d.2)
+  | _, _ => none
+
+def brute (mt : Val → Val → Bool) (blocks : List Block) (c : Criteria) : List Doc :=
+  blocks.flatMap fun b => b.2.filter fun d => holds mt c d.2
+
+/-- **`criteria_config_invariant`**: under every index configuration for which the query is accepted, the pipeline
+    selects exactly the brute-force answer — hence the same rows under none / inverted / skipping. -/
+theorem criteria_config_invariant (H : Bytes → Nat) (mt : Val → Val → Bool) (schema : List TagType) (cfg : List Cfg)
+    (blocks : List Block) (c : Criteria)
+    (hn : ((blocks.flatMap (·.2)).map (·.1)).Nodup)
+    (hsound : ∀ b ∈ blocks, BlockSound H .stream schema (b.2.map (·.2)) b.1)
+    (hty : ∀ b ∈ blocks, ∀ d ∈ b.2, RowTyped schema d.2)
+    (hok : ∀ b ∈ blocks, ∀ d ∈ b.2, CritOk schema cfg d c)
+    (res : List Doc) (hres : select H mt schema cfg blocks c = some res) : res = brute mt blocks c := by
+  unfold select at hres
+  simp only at hres
+  split at hres
+  · rename_i sf f hsf hf
+    simp only [Option.some.injEq] at hres
+    subst hres
+    unfold brute
+    have hdocs : ∀ b ∈ blocks, ∀ d ∈ b.2, d ∈ blocks.flatMap (·.2) := fun b hb d hd =>
+      List.mem_flatMap.mpr ⟨b, hb, hd⟩
+    -- per block: either it is kept (then the index is a superset) or skipped (then nothing matches)
+    have key : ∀ b ∈ blocks,
+        (if !(shouldSkip H .stream b.1 sf == some true) then
+          b.2.filter (fun d => (exec cfg (blocks.flatMap (·.2)) f).contains d.1 && holds mt c d.2) else []) =
+        b.2.filter (fun d => holds mt c d.2) := by
+      intro b hb
+      by_cases hk : shouldSkip H .stream b.1 sf = some true
+      · simp only [hk, beq_self_eq_true, Bool.not_true, Bool.false_eq_true, if_false]
+        symm
+        apply List.filter_eq_nil_iff.mpr
+        intro d hd
+        have hrt : RowsTyped schema (b.2.map (·.2)) := by
+          intro r hr tag v hv
+          obtain ⟨d', hd', rfl⟩ := List.mem_map.mp hr
+          exact hty b hb d' hd' tag v hv
+        have := pruning_sound_stream H mt schema cfg (b.2.map (·.2)) b.1 (hsound b hb) hrt c sf hsf hk d.2
+          (List.mem_map.mpr ⟨d, hd, rfl⟩)
+        simp [this]
+      · have : (shouldSkip H .stream b.1 sf == some true) = false := by
+          cases h : shouldSkip H .stream b.1 sf with
+          | none => rfl
+          | some x => cases x <;> simp_all
+        simp only [this, Bool.not_false, if_true]
+        apply List.filter_congr
+        intro d hd
+        cases hh : holds mt c d.2
+        · simp
+        · simp [index_superset mt schema cfg _ hn c f hf d (hdocs b hb d hd) (hty b hb d hd) (hok b hb d hd) hh]
+    exact flatMap_filter_keep blocks _ _ _ key
+  · cases hres
+
+
+/-! ## 7. series / time / block-filter pruning inside one part (`partIter.findBlock`) -/
+
+/-- full statement: for block headers sorted by (series, start time) and wanted series in increasing order, the
+    iterator returns exactly the blocks of wanted series that overlap `[lo, hi]` and are not pruned. -/
+def scanPart_completeStatement : Prop :=
+  ∀ (lo hi : Int) (skip : BlockMeta → Bool) (blocks : List BlockMeta) (sids : List Nat),
+    blocks.Pairwise (fun a b => a.sid < b.sid ∨ (a.sid = b.sid ∧ a.minTs ≤ b.minTs)) →
+    sids.Pairwise (· < ·) →
+    scanPart false lo hi skip blocks sids =
+      blocks.filter fun b => sids.contains b.sid && wantedBlock lo hi skip b
+
+/-- proved part: all blocks of ONE wanted series (the multi-block case of finding F25): the iterator returns exactly
+    the blocks that overlap the time range and are not pruned by the block filter. -/
+theorem scanPart_complete_partial (lo hi : Int) (skip : BlockMeta → Bool) (sid : Nat) (blocks : List BlockMeta)
+    (hs : ∀ b ∈ blocks, b.sid = sid) (hsorted : blocks.Pairwise fun a b => a.minTs ≤ b.minTs) :
+    scanPart false lo hi skip blocks [sid] = blocks.filter (wantedBlock lo hi skip) := by
+  unfold scanPart
+  exact scanBlocks_single lo hi skip sid blocks hs hsorted _ (by simp; omega)
+
+example : scanPart false 0 100 (fun b => b.minTs == 1) [⟨1, 1, 2⟩, ⟨1, 3, 3⟩] [1] = [⟨1, 3, 3⟩] := by decide
+
+/-- F25: at the pinned commit a pruned block makes the iterator jump to the next series, so the second block of the
+    series (which is not pruned and overlaps the time range) is never returned. -/
+theorem scan_legacy_counterexample :
+    scanPart true 0 100 (fun b => b.minTs == 1) [⟨1, 1, 2⟩, ⟨1, 3, 3⟩] [1] = [] ∧
+    scanPart false 0 100 (fun b => b.minTs == 1) [⟨1, 1, 2⟩, ⟨1, 3, 3⟩] [1] = [⟨1, 3, 3⟩] := by
+  decide
+
+/-- F62: without the guard, `Range` prunes a block that has no recorded bounds (written before the index rule). -/
+theorem range_missing_bounds_legacy_counterexample :
+    rangeSkip [] [] ⟨3#64, maxI64, false, true⟩ = true ∧
+    opRange .stream [(0, ⟨.none, [], [], .int⟩)] 0 (some ⟨3#64, maxI64, false, true⟩) true = some false := by
+  decide
+
 end Banyan.C08
